@@ -42,6 +42,7 @@ def drive(run, prop, kind, func_name, configs, canaries, canary_cfg, checker_cls
     total_paths = 0
     total_dec = 0
     cand = {}          # (label, code) -> list of (witness, desc)
+    distinct = set()
     samples_for_validation = []
     rng = random.Random(run.seed)
     cfg_stats = []
@@ -75,6 +76,8 @@ def drive(run, prop, kind, func_name, configs, canaries, canary_cfg, checker_cls
             if o.get('infeasible'):
                 continue
             n_obl += o['nobl']
+            if o.get('trace') is not None:
+                distinct.add(label + '|' + repr(o['trace']))
             n_ok += o['nobl'] - min(o['nobl'], len(o['viol']))
             if o['viol']:
                 n_viol_paths += 1
@@ -199,5 +202,9 @@ def drive(run, prop, kind, func_name, configs, canaries, canary_cfg, checker_cls
                        'time domain': 'stamps in [0,1000], sensor stamps in [-1000,2000], time_step in (0,2000]'})
     run.cov.update({'states': total_paths, 'transitions': max(1, total_dec),
                     'traces_validated_against_impl': n_valid,
+                    'evaluations': total_paths, 'distinct_nontrivial': len(distinct),
+                    'rule': 'one evaluation = one feasible path (equivalence class of schedules with the same branch '
+                            'decisions) of the real loop; distinct = distinct (configuration, observable trace: batches, '
+                            'processed samples, result rows); every path is non-trivial in that its path condition is satisfiable',
                     'configurations': cfg_stats, 'exhaustive': False,
                     'candidates': {('%s|%s' % k): len(v) for k, v in cand.items()}})
